@@ -313,6 +313,8 @@ class BytesOp(Op):
     def ready(self, w, op):
         n = w.m.nodes[op["bi"]]
         m, a = op["method"], op["args"]
+        if m == "poke_shared":
+            return a[0] in w.shared_bytes
         if m == "init_size":
             return 0 <= a[0] <= n.a["size"]
         if m == "assign":
@@ -355,6 +357,15 @@ class BytesOp(Op):
             def fn():
                 B.contents[a[0] : a[1]] = v
 
+        elif m == "poke_shared":
+            buf = w.shared_bytes[a[0]]
+
+            def fn():
+                # the caller edits ITS bytearray: no interval may notice
+                buf.extend(b"\xAA\xBB")
+                if len(buf) > 2:
+                    buf[0] ^= 0xFF
+
         out = capture(fn)
         out.value = None
         return out
@@ -379,6 +390,8 @@ class BytesOp(Op):
             c[a[0] : a[0] + len(v)] = v
         elif m == "edit_slice":
             c[a[0] : a[1]] = bytes.fromhex(a[2])
+        elif m == "poke_shared":
+            w.counters["probe:caller_bytearray_edited"] += 1
         return Exp("ok", value=None, owner=("C19",))
 
 
